@@ -1493,7 +1493,7 @@ func TestRealReadd(t *testing.T) {
 
 func TestRealBackpressure(t *testing.T) {
 	c := rt.Get()
-	for i := 0; i < c.N(3, 21); i++ {
+	for i := 0; i < c.N(6, 24); i++ {
 		runCase(t, "real-backpressure", i, map[string]any{"sndbuf": 4096, "variant": i % 3, "pause": []string{"2.5s", "4.5s", "4s with Server.Close after 1.5s"}[i%3], "hold": []int{3, 3, 30}[i%3]}, func() rt.Result { return backpressureCase(i) })
 	}
 }
